@@ -243,6 +243,12 @@ def timeline_corpus(tier, seed):
     add(dur("1s"), k_from, rep("2x"), k_50, easing("Easing::InSine"), k_to, delay("after 3s"))
     add(dur("10s"), rep("infinite"), k_from, k_25f, k_50, k_to)
     add(dur("1s"), dur("2s"), k_to)             # a later argument of the same kind wins
+    # keyframes sharing a position (a step) are all kept, in source order; keyframes may be written out of order
+    add(dur("4s"), k_from, kf(T, "50%", [("x", "3.5")]), kf(T, "50%", [("x", "7.5"), ("n", "40")]), k_to)
+    add(dur("1s"), k_from, kf(T, "0%", [("x", "2.5"), ("y", "0.5")]), k_to)
+    add(dur("1s"), k_from, kf(T, "100%", [("x", "8.5")]), k_to)
+    add(dur("1s"), k_to, k_50, k_from)
+    add(dur("1s"), k_50, k_25f, k_to)
     # merged lists
     S.append({"kind": "merged", "items": [sentence(T, [dur("1s"), k_from, k_to]),
                                           sentence(T, [dur("2s"), delay("after 1s"), k_50])]})
@@ -278,7 +284,9 @@ def timeline_corpus(tier, seed):
                 args.append(REVERSE)
             if rnd.random() < 0.5:
                 args.append(rnd.choice(pool_e))
-            ks = rnd.sample(pool_k, rnd.randint(1, 4))
+            ks = rnd.sample(pool_k, rnd.choice([0, 1, 1, 2, 2, 3, 3, 4]))
+            if ks and rnd.random() < 0.2:
+                ks.append(kf(T, rnd.choice(ks).macro.split(" ")[0], [("y", "6.5")]))     # a second keyframe at one position
             args += ks
             rnd.shuffle(args)
             S.append({"kind": "single", "items": [sentence(T, args)]})
@@ -412,6 +420,10 @@ def animator_corpus(tier, seed):
     # merged arm with a member that has no keyframes
     C.append({"defaults": None,
               "arms": [arm(["St::B"], [tl(dur("for 3s"), rep("2x")), tl(dur("1s"), delay("after 500ms"), k_to)])]})
+    # arms whose timeline has no keyframes at all (a hold / timer state): the state still has a timeline
+    C.append({"defaults": {"state": "St::A", "values": ("inline", [("x", "1.5")])},
+              "arms": [arm(["St::A"], [tl(dur("1s"), k_to)]), arm(["St::B"], [tl(dur("2s"))]),
+                       arm(["St::C", "St::D"], [tl(dur("for 3s"), rep("2x")), tl(dur("1s"), delay("after 500ms"))])]})
     if tier == "thorough":
         rnd = random.Random(seed * 1299709 + 3)
         states = ["St::A", "St::B", "St::C", "St::D"]
@@ -438,9 +450,10 @@ def animator_corpus(tier, seed):
                         args.append(rnd.choice([rep("2x"), rep("infinite")]))
                     if rnd.random() < 0.3:
                         args.append(easing("Easing::OutQuad"))
-                    args.append(rnd.choice([k_to, k_to2, k_def] if d and d["values"] else [k_to, k_to2, k_def]))
-                    if rnd.random() < 0.3:
-                        args.append(k_from)
+                    if rnd.random() < 0.85:
+                        args.append(rnd.choice([k_to, k_to2, k_def]))
+                        if rnd.random() < 0.3:
+                            args.append(k_from)
                     rnd.shuffle(args)
                     items.append(tl(*args))
                 arms.append(arm(ss, items))
